@@ -64,6 +64,10 @@ type c18Scn struct {
 	// pathAlwaysSet: ConfigPath reports true even for an empty path
 	pathAlwaysSet bool
 	watchedErr    []string
+	// holdMarker: Verify parks (once) on the config whose marker this is
+	holdMarker  string
+	holdReached chan struct{}
+	holdRelease chan struct{}
 }
 
 type c18Verify struct {
@@ -107,7 +111,16 @@ func (c *c18Cfg) Verify() error {
 	s.mu.Lock()
 	s.verifyCalls = append(s.verifyCalls, c18Verify{marker: c.Marker, alpha: c.Alpha})
 	need, fail := s.needMarker, s.failVerify
+	var reached, release chan struct{}
+	if s.holdMarker != "" && c.Marker == s.holdMarker {
+		reached, release = s.holdReached, s.holdRelease
+		s.holdMarker = ""
+	}
 	s.mu.Unlock()
+	if reached != nil {
+		close(reached)
+		<-release
+	}
 	if fail {
 		return fmt.Errorf("%w: forced", errC18Invalid)
 	}
@@ -296,6 +309,16 @@ func runC18(w *fw.Worker) {
 			n++
 			doc["tags"] = []string{fmt.Sprintf("t%d", n), "u"}
 			want.Tags = map[string]struct{}{fmt.Sprintf("t%d", n): {}, "u": {}}
+			if r.Chance(30) {
+				// the default is a non-empty set
+				cfg.Tags = map[string]struct{}{"from-default": {}}
+			}
+			if r.Chance(25) {
+				// the file empties the set: an empty list is a value, not an absent key
+				doc["tags"] = []string{}
+				want.Tags = map[string]struct{}{}
+				w.Count("file_sets_an_empty_set", 1)
+			}
 		}
 		// some applications spell file keys differently from the dials tags
 		kebab := r.Chance(35)
@@ -515,6 +538,37 @@ func runC18(w *fw.Worker) {
 				w.Violation(i, "onnewconfig-not-delivered-after-watched-change", "the file change was installed but OnNewConfig never fired", desc)
 				return
 			}
+		}
+		if watch && mode == "ok" && r.Chance(8) {
+			// the monitor is busy (a slow Verify) for a while, and the file changes again meanwhile: the later change
+			// must still arrive
+			mk := func(marker string) []byte {
+				d := map[string]any{"marker": marker}
+				if kebab {
+					d = c18Recase(d)
+				}
+				return c18Render(format, d)
+			}
+			scn.mu.Lock()
+			scn.holdMarker, scn.holdReached, scn.holdRelease = "from-file-3", make(chan struct{}), make(chan struct{})
+			reached, release := scn.holdReached, scn.holdRelease
+			scn.mu.Unlock()
+			c18WriteAtomic(path, mk("from-file-3"))
+			select {
+			case <-reached:
+			case <-time.After(15 * time.Second):
+				close(release)
+				w.Inconclusive(i, "the watched change did not reach Verify within the watchdog")
+				return
+			}
+			c18WriteAtomic(path, mk("from-file-4"))
+			time.Sleep(time.Duration(r.Range(600, 900)) * time.Millisecond)
+			close(release)
+			if !conc.WaitUntil(func() bool { return d.View().Marker == "from-file-4" }, 15*time.Second) {
+				w.Violation(i, "watched-change-lost-while-the-monitor-was-busy", fmt.Sprintf("the file holds marker from-file-4; the view still shows %q 15s after the slow Verify returned", d.View().Marker), desc)
+				return
+			}
+			w.Count("changes_during_a_slow_verify_converged", 1)
 		}
 		if multi > 0 {
 			w.Distinct(fmt.Sprintf("%s|%v|%s|%s|%v|%v|%v|%s", format, byExt, flagKind, pathFrom, watch, kebab, want.Tags != nil, matrix.String()))
